@@ -687,5 +687,8 @@ PROPS["C03"]["explanation"] += " (COADJUST) NCgenio's whole-dimension optimisati
 PROPS["C02"]["rules"] = PROPS["C02"]["rules"] + [rules_loops.rule_last_block_needs_no_successor]
 PROPS["C02"]["explanation"] += " (LASTBLOCK) HLgetdatainfo takes a block for the element's last one only under a test of its table's successor link."
 
+PROPS["C09"]["rules"] = PROPS["C09"]["rules"] + [rules_gr.rule_image_record_fill_flag]
+PROPS["C09"]["explanation"] += " (FILLFLAG) every place that builds the record of a new-style image sets fill_img, so a data-less image is filled by its first partial write in any session."
+
 NOT_APPLICABLE = {}
 
